@@ -15,8 +15,15 @@ DtlsPool == << EncDtlsRecord(22, 65277, 0, <<0, 0, 1>>, EncDtlsHs(14, 0, 1, 0, 0
 DtlsTails == << <<>>, SubSeq(DtlsPool[1], 1, 17), <<22, 254, 253, 0, 0, 0, 0, 0, 0, 0, 0, 65, 1>>, <<1, 2, 3>>,
                 EncDtlsRecord(23, 65277, 0, <<0, 0, 3>>, <<1>>), EncDtlsRecord(22, 65277, 0, <<0, 0, 3>>, <<>>) >>
 
-Idx(n) == SetToSeq(UNION {[1..k -> 1..n] : k \in 0..2} \cup {<<1, 2, 3>>, <<3, 3, 3>>, <<2, 1, 2>>})
 Mk(fn, single, bytes) == [fn |-> fn, single |-> single, bytes |-> bytes]
+BigTls == << EncRecordRaw(23, 771, Fill(1, 16385)), EncRecordRaw(23, 771, Fill(2, 16640)), EncRecordRaw(22, 771, <<20>> \o BE24(16380) \o Fill(3, 16380)) >>
+BigDtls == << EncDtlsRecord(22, 65277, 0, <<0, 0, 7>>, EncDtlsHs(11, 40000, 1, 0, 16373, Fill(4, 16373))),
+              EncDtlsRecord(22, 65277, 0, <<0, 0, 8>>, EncDtlsHs(11, 40000, 1, 16373, 16628, Fill(5, 16628))),
+              EncDtlsRecord(20, 65277, 0, <<0, 0, 9>>, [j \in 1..16640 |-> 1]) >>
+BigCases(pool, big, fn, single) ==
+  Concat([b \in 1..Len(big) |-> << Mk(fn, single, pool[1] \o big[b]), Mk(fn, single, big[b] \o pool[2]),
+                                     Mk(fn, single, pool[1] \o big[b] \o pool[3]), Mk(fn, single, pool[2] \o pool[1] \o big[b]) >>])
+Idx(n) == SetToSeq(UNION {[1..k -> 1..n] : k \in 0..2} \cup {<<1, 2, 3>>, <<3, 3, 3>>, <<2, 1, 2>>})
 Build(pool, tails, fn, single) ==
   LET ix == Idx(Len(pool)) IN
   Concat([q \in 1..Len(ix) |->
@@ -24,7 +31,9 @@ Build(pool, tails, fn, single) ==
 
 ASSUME TLCSet(1, Build(TlsPool, TlsTails, "tls_parser_many", "parse_tls_plaintext")
                  \o Build(DtlsPool, DtlsTails, "parse_dtls_plaintext_records", "parse_dtls_plaintext_record")
-                 \o Build(SubSeq(TlsPool, 1, 3), SubSeq(TlsTails, 1, 5), "tls_parser", "parse_tls_plaintext"))
+                 \o Build(SubSeq(TlsPool, 1, 3), SubSeq(TlsTails, 1, 5), "tls_parser", "parse_tls_plaintext")
+                 \o BigCases(TlsPool, BigTls, "tls_parser_many", "parse_tls_plaintext")
+                 \o BigCases(DtlsPool, BigDtls, "parse_dtls_plaintext_records", "parse_dtls_plaintext_record"))
 Cases == TLCGet(1)
 N == Len(Cases)
 
